@@ -511,10 +511,24 @@ func ParentMain(id, tier string, seed uint64) int {
 			ev.Verdict = "inconclusive"
 		}
 	}
-	os.MkdirAll(filepath.Join(VerifDir, "evidence"), 0755)
+	edir := evidenceDir()
+	os.MkdirAll(edir, 0755)
 	b, _ := json.MarshalIndent(ev, "", " ")
-	ioutil.WriteFile(filepath.Join(VerifDir, "evidence", id+".json"), b, 0644)
+	ioutil.WriteFile(filepath.Join(edir, id+".json"), b, 0644)
 	return code
+}
+
+// evidenceDir: only the registered binary (vcheck, built by run.sh from /repo's working tree) writes to
+// /verif/evidence; development binaries and binaries built against scratch worktrees (vcheck.seed-*) write
+// to build/dev-evidence so that they can never overwrite committed evidence. VERIF_EVIDENCE_DIR overrides.
+func evidenceDir() string {
+	if d := os.Getenv("VERIF_EVIDENCE_DIR"); d != "" {
+		return d
+	}
+	if filepath.Base(os.Args[0]) == "vcheck" {
+		return filepath.Join(VerifDir, "evidence")
+	}
+	return filepath.Join(VerifDir, "build", "dev-evidence")
 }
 
 func mergeEvidence(a, b Evidence, sub string) Evidence {
